@@ -459,8 +459,8 @@ def startsSorted (gs : List Gene) : Bool :=
   keysSorted (gs.map fun g => (((geneSpan g).map (·.1)).getD 0, 0))
 
 /-- domain of the round-trip clause: single-strand genes with ONE transcript each, CDS inside the exon span,
-    identifiers in the plain alphabet; unique (effective) locus tags for the locus-tag and hybrid modes; a
-    position-sorted file for the sorted mode -/
+    identifiers in the plain alphabet; unique (effective) locus tags for the locus-tag mode; a position-sorted file
+    for the sorted mode; either for the hybrid mode -/
 def rtDomain (fl : Flavor) (m : Mode) (c : Coll) : Bool :=
   let gs := genesOf c
   writeDomain c && !gs.isEmpty && startsSorted gs &&
@@ -473,9 +473,13 @@ def rtDomain (fl : Flavor) (m : Mode) (c : Coll) : Bool :=
       (match spanOf t.exons, spanOf t.cds with
        | some e, some k => decide (e.1 ≤ k.1) && decide (k.2 ≤ e.2)
        | _, _ => true)) &&
-  (match m with
-   | .sorted => keysSorted (writtenKeys fl c)
-   | _ => gs.all (fun g => (geneTagWritten g).isSome) && distinctStrs (gs.filterMap geneTagWritten))
+  (let uniqueTags := gs.all (fun g => (geneTagWritten g).isSome) && distinctStrs (gs.filterMap geneTagWritten)
+   let sortedFile := keysSorted (writtenKeys fl c)
+   match m with
+   | .sorted => sortedFile
+   | .locusTag => uniqueTags
+   -- Hybrid documents: features without a locus tag or with duplicate tags are sent to the Sorted parser
+   | .hybrid => uniqueTags || sortedFile)
 
 def stripTx (t : PTx) : PTx := { t with frames := [], quals := [] }
 def stripGene (g : PGene) : PGene := { g with txs := g.txs.map stripTx }
